@@ -584,8 +584,96 @@ def rule_a7(chk: Check) -> None:
     chk.ob("A7", "PyOpenSSL contexts request client certificates", okc, evals=max(1, n))
 
 
+_RESHAPING = {"insert", "sort", "reverse", "pop", "remove", "clear", "extend", "__setitem__", "__delitem__"}
+
+
+def rule_a13(chk: Check) -> None:
+    """What is written is what is enforced, for the *list*: the rules handed
+    to CertificateAuthConfig are one rule per configured entry, in the
+    configured order.  The matcher is first-match-wins (A4), so collapsing
+    entries with equal prefixes, sorting, reversing, de-duplicating or
+    filtering the list changes which rule decides a path."""
+    chk.rule("A13", "rule-list fidelity: path_rules given to CertificateAuthConfig is built with one element per entry of self.certificate_auth_paths, in iteration order (append in an unfiltered loop, or an unfiltered list comprehension)")
+    from ..cfg import Builder, inline_local
+
+    fi = chk.proj.func("server.config:ServerConfig.get_certificate_auth_config")
+    g = Builder(chk.proj, inline_local, 3).build(fi)
+    defs = Defs(g)
+    sites = [(n, c) for n in g.nodes if n.ast is not None and n.kind == "stmt" for c in calls(n.ast) if (dotted(c.func) or "").split(".")[-1] == "CertificateAuthConfig"]
+    chk.require("A13", fi.key, "CertificateAuthConfig construction", len(sites), 1, "the configured path rules are never handed to a CertificateAuthConfig")
+    funcs = [f.node for f in chk.proj.functions.values() if f.module is fi.module]
+
+    def owner(a):
+        return next((fn for fn in funcs if any(x is a for x in ast.walk(fn))), None)
+
+    def from_paths(e, fn) -> bool:
+        """the iterable is self.certificate_auth_paths (possibly through a plain
+        local copy or enumerate/list/tuple/iter), not a filtered/sorted view"""
+        while isinstance(e, ast.Call) and dotted(e.func) in ("enumerate", "list", "tuple", "iter") and len(e.args) == 1 and not e.keywords:
+            e = e.args[0]
+        if dotted(e) == "self.certificate_auth_paths":
+            return True
+        if isinstance(e, ast.Name) and fn is not None:
+            ds = [st.value for st in ast.walk(fn) if isinstance(st, ast.Assign) and any(isinstance(t, ast.Name) and t.id == e.id for t in st.targets)]
+            return len(ds) == 1 and from_paths(ds[0], None)
+        return False
+
+    def unfiltered_comp(e, fn) -> bool:
+        if isinstance(e, ast.Call) and dotted(e.func) == "list" and len(e.args) == 1 and isinstance(e.args[0], ast.GeneratorExp):
+            e = e.args[0]
+        return isinstance(e, (ast.ListComp, ast.GeneratorExp)) and len(e.generators) == 1 and not e.generators[0].ifs and from_paths(e.generators[0].iter, fn)
+
+    for n, c in sites:
+        arg = kwarg(c, "path_rules") or (c.args[0] if c.args else None)
+        if arg is None:
+            chk.ob("A13", f"{fi.key}: path_rules passed", False)
+            chk.finding("A13", fi.key, "rule-list-dropped", "CertificateAuthConfig is built without the configured path rules", n.where())
+            continue
+        leaves = origins(defs, n, arg) if isinstance(arg, (ast.Name, ast.Call)) else [(n, arg)]
+        ok, why = bool(leaves), ""
+        for dn, le in leaves:
+            if isinstance(le, _Sel):
+                ok, why = False, repr(le)
+                continue
+            fn = owner(le)
+            if unfiltered_comp(le, fn):
+                continue
+            if isinstance(le, ast.List) and not le.elts and fn is not None:
+                # accumulator idiom: find the variable bound to this literal
+                names = [t.id for st in ast.walk(fn) if isinstance(st, (ast.Assign, ast.AnnAssign)) and st.value is le for t in (st.targets if isinstance(st, ast.Assign) else [st.target]) if isinstance(t, ast.Name)]
+                if len(names) != 1:
+                    ok, why = False, "accumulator not a plain local"
+                    continue
+                acc = names[0]
+                uses = [mc for mc in ast.walk(fn) if isinstance(mc, ast.Call) and isinstance(mc.func, ast.Attribute) and isinstance(mc.func.value, ast.Name) and mc.func.value.id == acc]
+                bad = [u.func.attr for u in uses if u.func.attr in _RESHAPING]
+                stores = [st for st in ast.walk(fn) if isinstance(st, (ast.Assign, ast.AugAssign, ast.Delete)) and any(isinstance(t, ast.Subscript) and isinstance(t.value, ast.Name) and t.value.id == acc for t in (st.targets if not isinstance(st, ast.AugAssign) else [st.target]))]
+                rebinds = [st for st in ast.walk(fn) if isinstance(st, (ast.Assign, ast.AugAssign)) and any(isinstance(t, ast.Name) and t.id == acc for t in (st.targets if isinstance(st, ast.Assign) else [st.target])) and getattr(st, "value", None) is not le]
+                appends = [u for u in uses if u.func.attr == "append"]
+                loops = [lp for lp in ast.walk(fn) if isinstance(lp, ast.For) and from_paths(lp.iter, fn)]
+                # each append sits directly in the body of one loop over the configured entries (not under an if / nested loop / try that could skip it)
+                direct = [u for u in appends if any(any(isinstance(b, ast.Expr) and b.value is u for b in lp.body) for lp in loops)]
+                skips = [x for lp in loops for x in ast.walk(lp) if isinstance(x, (ast.Continue, ast.Break))]
+                if bad or stores or rebinds:
+                    ok, why = False, f"`{acc}` is reshaped ({', '.join(sorted(set(bad))) or 'item store / rebinding'})"
+                elif len(appends) != 1 or len(direct) != 1:
+                    ok, why = False, f"`{acc}` does not receive exactly one unconditional append per configured entry"
+                elif skips:
+                    ok, why = False, "the loop over the configured entries can skip or stop early"
+                continue
+            ok, why = False, f"`{norm(le)[:60]}`"
+        if not ok:
+            chk.finding(
+                "A13", fi.key, f"rule-list-reshaped:{why[:60]}",
+                f"the rules handed to CertificateAuthConfig are not one per configured entry in the configured order ({why}): the matcher is first-match-wins, so entries that are merged, dropped, de-duplicated or reordered let another rule than the first written one decide a path - a later, laxer entry for the same prefix replaces the stricter first one",
+                n.where(),
+            )
+        chk.ob("A13", f"{fi.key}: path_rules is the configured list, entry by entry", ok)
+
+
 def run(chk: Check) -> None:
     rule_a1(chk)
+    rule_a13(chk)
     rule_a2(chk)
     rule_a3(chk)
     rule_a4(chk)
